@@ -1,5 +1,6 @@
 import TaskctlVerif.Proofs.SchedFair
 import TaskctlVerif.Props.C02
+import TaskctlVerif.Model.SchedMulti
 /-!
 # C03 — every pipeline run terminates and runs each eligible stage exactly once
 
@@ -327,3 +328,66 @@ example : isDone 4 (rounds exCfg2 exOk 4 1 init) = false ∧ isDone 4 (rounds ex
   decide
 
 end Sched
+
+/-! ## Several loops over one graph (a pipeline included by several stages) — `Model/SchedMulti.lean` -/
+namespace SchedMulti
+open Sched
+
+/-- with the compare-and-swap: a stage that is not waiting has been started exactly once or never, a
+waiting stage never; hence at most once -/
+def MInv (σ : MSt) : Prop :=
+  ∀ s, (σ.status s = .waiting → σ.starts s = 0) ∧ σ.starts s ≤ 1
+
+theorem minv_step (σ : MSt) (a : MAct) (h : MInv σ) : MInv (mstep true σ a) := by
+  intro s
+  have hs := h s
+  cases a with
+  | visit l t => simp only [mstep]; split <;> exact hs
+  | giveUp l => exact hs
+  | start l =>
+    simp only [mstep]
+    split
+    · exact hs
+    · rename_i t hpc
+      split
+      · exact hs
+      · rename_i hc
+        have hw : σ.status t = .waiting := by
+          cases hst : σ.status t <;> simp_all
+        have ht := h t
+        by_cases hst : s = t
+        · subst hst; simp [ht.1 hw]
+        · simp [upd_apply, hst]; exact hs
+  | ret t ok =>
+    simp only [mstep]
+    split
+    · split <;> (by_cases hst : s = t
+                 · subst hst; simp [upd_apply]; exact hs.2
+                 · simp [upd_apply, hst]; exact hs)
+    · exact hs
+  | post t =>
+    simp only [mstep]
+    split
+    · by_cases hst : s = t
+      · subst hst; simp [upd_apply]; exact hs.2
+      · simp [upd_apply, hst]; exact hs
+    · exact hs
+
+/-- **C03 with several loops over one graph (repaired code)**: whatever the number of loops, the
+dependency structure, the conditions and the interleaving, no stage is started twice. -/
+theorem C03_once_multi (as : List MAct) (s : Nat) : (mrun true minit as).starts s ≤ 1 := by
+  suffices ∀ σ, MInv σ → MInv (mrun true σ as) from
+    (this minit (fun _ => ⟨fun _ => rfl, Nat.zero_le _⟩) s).2
+  induction as with
+  | nil => intro σ h; exact h
+  | cons a as ih => intro σ h; exact ih _ (minv_step σ a h)
+
+/-- the code before fix 6c07174: two loops that both read stage 0 as waiting both start it -/
+theorem C03_witness_old_two_loops :
+    (mrun false minit [.visit 0 0, .visit 1 0, .start 0, .start 1]).starts 0 = 2 := by decide
+
+/-- … and the same interleaving under the compare-and-swap starts it once -/
+theorem C03_witness_cas_two_loops :
+    (mrun true minit [.visit 0 0, .visit 1 0, .start 0, .start 1]).starts 0 = 1 := by decide
+
+end SchedMulti
